@@ -233,6 +233,12 @@ Proof.
     + exact (proj2 (proj2 (named_filter_spec ns []))).
 Qed.
 
+(* the generic pruning used in the statements about the export is the physical pruning of each filter *)
+Theorem prune_gen_instances : forall t,
+  prune_gen FAll t = t /\ prune_gen FEmpty t = prune_empty t /\
+  forall ns cs0, prune_gen (FNamed ns cs0) t = prune_named ns cs0 t.
+Proof. intro t. split; [apply prune_gen_all|]. split; [apply prune_gen_empty|]. intros ns cs0. apply prune_gen_named. Qed.
+
 (* ------------------------------------------------------------ non-vacuity for C13 *)
 (* root/  a "hi"; big "biggie"; a.b/{x -> ../a, run*, copy/HEAD "hi"}; e/f/g/ (empty only recursively);
           fifo; .git/HEAD "hi"   - three identical files, two identical sub-trees *)
